@@ -258,6 +258,7 @@ func runS2Job(j *check.Job) *check.Result {
 	res.Exhaustive = st.Exhaustive
 	res.CapHit = st.CapHit
 	res.MaxDepth = st.MaxPoints
+	res.BoundDone = &st.BoundDone
 	if len(st.Diverged) > 0 {
 		res.EngineError = "replay divergence: " + st.Diverged[0]
 	}
